@@ -17,9 +17,11 @@ Cases == UNION { {[h |-> s[1], w |-> s[2], block |-> b, levels |-> lv, route |->
 \* every combination of layout, dtype, nodata, rotation, windowed writes, intermediate compression and CRS on one mid-sized image
 \* (the Variants above pin these together; here they vary independently)
 Full == {[h |-> 100, w |-> 70, block |-> 32, levels |-> lv, route |-> "write_cog", dest |-> d, pre |-> "absent", overwrite |-> FALSE,
-          layout |-> ly[1], ns |-> ly[2], dtype |-> dt, nodata |-> nd, rot |-> r, windowed |-> wn, icomp |-> ic, crs |-> cr] :
+          layout |-> ly[1], ns |-> ly[2], dtype |-> dt, nodata |-> nd, rot |-> r, windowed |-> wn, icomp |-> ic, crs |-> cr, pat |-> pt] :
            ly \in {<<"YX", 1>>, <<"SYX", 3>>, <<"YXS", 3>>, <<"YXS", 4>>}, dt \in {"uint8", "int16", "float32", "int8"}, nd \in {<<>>, <<7>>}, r \in BOOLEAN, wn \in BOOLEAN, ic \in BOOLEAN,
-           cr \in {"32633", "4326", "3857"}, lv \in {"l2"}, d \in {"file"}}
+           cr \in {"32633", "4326", "3857"}, lv \in {"l2"}, d \in {"file"},
+           \* pixel pattern: random values, or whole internal blocks of the valid value 0 / of the nodata value / of one constant among random ones
+           pt \in {"random", "uniform_blocks"}}
 VARIABLE c
 Init == c = [k |-> 0]
 Next == "k" \in DOMAIN c /\ c' \in {x \in Cases : ~(x.route = "to_cog" /\ x.dest = "file")} \cup Full /\ Emit(c')
